@@ -39,8 +39,12 @@ CONFIG = {
                     "fieldTypeName / contextRefName, option trees from the real OptionsFor + WalkOptionField, source lines and "
                     "comments) and shipped with the op; compared: the text of the real protoprint.PrintFile with the text "
                     "Layout.printText computes from the summary (whole-printer correspondence: element walk, sorting, gaps, "
-                    "comments, option statements, field options, json_name, imports, file options, extend blocks). 'unspecified' "
-                    "on both sides when an unstable sort of the printer is not determined by its comparison. Non-trivial = file "
+                    "comments, option statements, field options, json_name, imports, file options, extend blocks), AND the "
+                    "reading of that text by bufbuild/protocompile (parse + link, summarised by the harness as a reader sees it: "
+                    "elements with their source lines and attributed comments, fields, options as printed name + literal tree + "
+                    "location flags) with the reading by the Lean grammar model Grammar.parseFile of the model's own text. The "
+                    "generated descriptors additionally carry trailing / detached comments in this stream. 'unspecified' on "
+                    "both sides when an unstable sort of the printer is not determined by its comparison. Non-trivial = file "
                     "that printed (distinct by op text).",
         },
         {
@@ -50,7 +54,12 @@ CONFIG = {
             "rule": "byte strings (printable, control, quotes/backslash, well-formed 2/3/4-byte runes incl. boundaries, ill-formed "
                     "UTF-8: lone continuation, overlong, surrogate, truncated, >U+10FFFF, NUL) -> prototextString, read back by "
                     "protocompile's lexer; plus literal texts with every escape form (well- and ill-formed) -> lexer only. "
-                    "Compared with J5V.Print.TextString.textString / unescape. Non-trivial = round trip succeeded or literal accepted.",
+                    "Compared with J5V.Print.TextString.textString / unescape. One op in eight: numeric scalars of option "
+                    "values - int64 / uint64 boundaries and random values through the real marshalSingular, read back by "
+                    "protocompile's parser (model Scalar.formatInt / readIntLit), integer literal forms (octal, hex, malformed) "
+                    "for the reader spec, float32 / float64 values (boundaries, inf, nan, random bits): text from Go as oracle, "
+                    "bit-exact read-back checked on the real code, token shape compared with Grammar.lex. "
+                    "Non-trivial = round trip succeeded or literal accepted.",
         },
         {
             "name": "print.ref", "harness": "printh", "driver": "drv_print", "env": _env("ref"),
@@ -82,21 +91,31 @@ CONFIG = {
     ],
     "trusted_base": [
         "Lean 4.33.0 kernel; axioms propext, Classical.choice, Quot.sound",
-        "hand-written models J5V/Print/{TextString,RefName,OptionText,Order}.lean of internal/j5s/protoprint/** kernels "
-        "(prototextString, contextRefName/pathToPackage/declaresName, parseOption/printOption/printOptionArray/printOptionMessageFields/"
-        "printFieldStyle/Simplify, sourceElements.Less, optionsByLocation.Less), validated by the print.str/ref/opt/ord streams",
+        "hand-written models J5V/Print/{TextString,RefName,OptionText,Order,Scalar}.lean of internal/j5s/protoprint/** kernels "
+        "(prototextString, contextRefName/pathToPackage/declaresName/capturedBeforeRoot, parseOption/printOption/printOptionArray/"
+        "printOptionMessageFields/printFieldStyle/Simplify, sourceElements.Less, optionsByLocation.Less, marshalSingular for "
+        "integers), validated by the print.str/ref/opt/ord streams",
+        "hand-written model J5V/Print/Layout.lean of the whole of protoprint.PrintFile above the kernels (printFile, printSection, "
+        "printElements, printMessage/Enum/Service/Oneof/Method/Field/FieldStyle/Extension, comments, gaps, OptionsFor order), "
+        "validated against the real PrintFile text on every op of print.file; its input is a summary of the descriptor computed "
+        "by the harness (summary.go) with the real fieldTypeName / contextRefName / OptionsFor / WalkOptionField",
+        "hand-written grammar model J5V/Print/Grammar.lean (tokeniser, comment attribution, recursive-descent parser of the "
+        "printed proto3 subset), written from the language definition and protocompile's sourceinfo rules, validated against "
+        "bufbuild/protocompile v0.14.1 on the printed text of every print.file op (not on arbitrary proto sources)",
         "reader-side specifications written in Lean from the protobuf language spec and validated differentially against "
         "bufbuild/protocompile v0.14.1: string-literal unescaping (lexer) and relative-name resolution (linker); the token "
         "parser of C05_option_inv is tied to the rendered text only through the driver's tokeniser (checked on every optstmt op)",
-        "protocompile's grammar-level parser, option interpreter and source-info generator: third party, NOT modelled; the "
-        "whole-file theorem C05_reparse_partial takes its relation to the kernels as a hypothesis (structure Reader)",
-        "scalar option values other than strings/bytes (strconv integer / float formatting, enum value names) are opaque texts "
-        "produced by Go (oracle)",
+        "protocompile's linker and option interpreter: third party, NOT modelled (the grammar model reads option names and "
+        "literals syntactically; C05_reparse_partial keeps the relation of name resolution to the kernels as a hypothesis, "
+        "structure Reader); C05_reprint_fixed takes 'the reader finds the elements where the printer put them' (relaidFile) as "
+        "an explicit hypothesis, checked on a concrete file and - through the second summary - by print.file",
+        "float option values (strconv.FormatFloat) and enum value names are opaque texts produced by Go (oracle)",
         "Go harness internal/verifh/printh, overlay hook files, generators (own + j5sgen), check engine",
     ],
     "assumptions": [
-        "whole-file equivalence (package, imports, messages, fields, options, comments, second print) is established only on the "
-        "generated / repository inputs by the print.reparse oracle on the real code, not by a theorem",
-        "printing glue outside the four kernels (comments, gaps, element walk, file options) is not modelled",
+        "whole-file equivalence (package, imports, messages, fields, options, comments, second print) of the REAL code is "
+        "established on the generated / repository inputs by the print.reparse oracle; the theorems are about the models",
+        "the summary the harness computes of a descriptor is trusted to be what the printer reads (it uses the printer's own "
+        "kernels through overlay hooks; a wrong summary shows as a print.file disagreement, not as a silent pass)",
     ],
 }
